@@ -18,6 +18,7 @@
 #include "QXmppMessage.h"
 #include "QXmppMessageHandler.h"
 #include "QXmppOutgoingClient.h"
+#include "XmppSocket.h"
 
 #include <QCoreApplication>
 #include <QDomDocument>
@@ -274,16 +275,20 @@ struct Rig {
     long long elements = 0;
     std::vector<std::string> history;   // every op applied to this client since its creation (for replays)
 
-    Rig(bool v2_, const std::function<void(QXmppConfiguration &)> &configure) : v2(v2_)
+    QStringList sentXml;   // everything the client wrote (needed to answer its bind request during a scripted login)
+
+    Rig(bool v2_, const std::function<void(QXmppConfiguration &)> &configure, const QString &expectedOwn) : v2(v2_)
     {
         auto *lg = new QXmppLogger(&client);
         lg->setLoggingType(QXmppLogger::SignalLogging);
         client.setLogger(lg);
-        QObject::connect(lg, &QXmppLogger::message, [this](QXmppLogger::MessageType, const QString &text) {
-            if (text.contains(QStringLiteral("CVE-2017-5603"))) warned++;
+        QObject::connect(lg, &QXmppLogger::message, [this](QXmppLogger::MessageType t, const QString &text) {
+            if (t == QXmppLogger::SentMessage) sentXml << text;
+            else if (text.contains(QStringLiteral("CVE-2017-5603"))) warned++;
         });
         configure(client.configuration());
-        own = client.configuration().jidBare();
+        // the own account as the harness knows it, NOT read from the object under test
+        own = expectedOwn;
         auto rec = [this](char chan) {
             return [this, chan](const QXmppMessage &m) {
                 events.push_back({ chan, m.id(), m.from(), m.to(), m.body(), m.isCarbonForwarded(), typeName(m), xmlOf(m) });
@@ -307,13 +312,71 @@ struct Rig {
 
 // account switch on the SAME client and manager objects, the way QXmppClient::connectToServer(config) does it (the stream's
 // configuration is overwritten) or through the setters of configuration(); `own` is read back from the live configuration
-static void reconfigure(Rig &rig, const std::function<void(QXmppConfiguration &)> &fn, bool replaceWhole)
+struct OwnCfg {
+    const char *name;
+    std::function<void(QXmppConfiguration &)> fn;
+    QString resource;
+    QString expectedOwn;   // the bare JID of that account, computed by the harness
+    Opt fullJid;           // set when the account is given as one full JID string (setJid)
+};
+
+// the bare part of a full JID, computed here and nowhere near the library: cut at the first '/', nothing else
+static QString bareIndependently(const QString &jid)
+{
+    const int p = jid.indexOf(QChar('/'));
+    return p < 0 ? jid : jid.left(p);
+}
+static OwnCfg byJid(const char *name, const QString &full)
+{
+    const int p = full.indexOf(QChar('/'));
+    return { name, [full](QXmppConfiguration &c) { c.setJid(full); }, p < 0 ? QStringLiteral("r") : full.mid(p + 1), bareIndependently(full), full };
+}
+static OwnCfg byParts(const char *name, const QString &u, const QString &d, const QString &r)
+{
+    return { name, [u, d, r](QXmppConfiguration &c) { c.setUser(u); c.setDomain(d); c.setResource(r); }, r, u.isEmpty() ? d : u + "@" + d, {} };
+}
+
+static std::string historyOf(const Rig &rig)
+{
+    std::string hist; size_t total = 0;
+    for (auto &h : rig.history) total += h.size() + 2;
+    if (total < 6000) { for (auto &h : rig.history) hist += h + "; "; }
+    else { int n = 0; for (auto &h : rig.history) { if (h[0] == 'm') n++; else { if (n) hist += "(" + std::to_string(n) + " stanzas); "; n = 0; hist += h + "; "; } } if (n) hist += "(" + std::to_string(n) + " stanzas); "; }
+    return hist;
+}
+
+// (0) the configuration must name the account the harness knows the client has: after every configuration op and every
+// login, configuration().jidBare() == bare part (cut at the first '/') of the JID that was set / that the server bound
+static void checkOwn(Rig &rig)
+{
+    const QString real = rig.client.configuration().jidBare();
+    if (real != rig.own)
+        oracleFail("C11:own-jid-wrong", "history=[" + historyOf(rig) + "] configuration().jidBare()=" + req(real) + " but the user's own bare JID is " + req(rig.own));
+    else oraclePass()++;
+    stat("own_jid_checks");
+}
+
+// the op line of an account: `jid <full>` (model computes the bare part, implementation side prints jidBare()) or `config <own>`
+static void announce(Rig &rig, const OwnCfg &cfg, const char *kind)
+{
+    if (cfg.fullJid) {
+        corr("jid " + req(*cfg.fullJid), "own=" + pct(rig.client.configuration().jidBare()));
+        rig.history.push_back(std::string(kind) + " jid " + req(*cfg.fullJid));
+    } else if (std::string(kind) != "reset") {
+        corr("config " + req(rig.own), "ok");
+        rig.history.push_back("config " + req(rig.own));
+    }
+    checkOwn(rig);
+}
+
+// account switch on the SAME client and manager objects, the way QXmppClient::connectToServer(config) does it (the stream's
+// configuration is overwritten) or through the setters of configuration()
+static void reconfigure(Rig &rig, const OwnCfg &cfg, bool replaceWhole)
 {
     if (replaceWhole) rig.client.configuration() = QXmppConfiguration();
-    fn(rig.client.configuration());
-    rig.own = rig.client.configuration().jidBare();
-    corr("config " + req(rig.own), "ok");
-    rig.history.push_back("config " + req(rig.own));
+    cfg.fn(rig.client.configuration());
+    rig.own = cfg.expectedOwn;
+    announce(rig, cfg, "switch");
     stat("account_switches");
 }
 
@@ -401,10 +464,7 @@ static void oracle(const Rig &rig, const Outer &o, const QDomElement &outerEl, c
 {
     const char *gen = rig.v2 ? "v2" : "v1";
     // failing input = the whole history of this client when short, else its account switches with stanza counts in between
-    std::string hist; size_t total = 0;
-    for (auto &h : rig.history) total += h.size() + 2;
-    if (total < 6000) { for (auto &h : rig.history) hist += h + "; "; }
-    else { int n = 0; for (auto &h : rig.history) { if (h[0] == 'm') n++; else { if (n) hist += "(" + std::to_string(n) + " stanzas); "; n = 0; hist += h + "; "; } } if (n) hist += "(" + std::to_string(n) + " stanzas); "; }
+    const std::string hist = historyOf(rig);
     const std::string replay = "history=[" + hist + "] own-now=" + req(rig.own) + " failing " + op;
     auto fail = [&](const char *what, const QString &detail = QString()) {
         oracleFail(std::string("C11:") + gen + ":" + what, replay + (detail.isEmpty() ? std::string() : " detail=" + pct(detail.left(300))));
@@ -530,35 +590,37 @@ static void inject(Rig &rig, const Outer &o, int flags)
     if (nStanzas % 997 == 1) sample("own=" + rig.own.toStdString() + " | " + stanza.left(420).toStdString() + " => " + obs);
 }
 
-struct OwnCfg { const char *name; std::function<void(QXmppConfiguration &)> fn; QString resource; };
-
 static std::vector<OwnCfg> ownConfigs()
 {
     return {
-        { "romeo", [](QXmppConfiguration &c) { c.setJid("romeo@montague.example/home"); }, "home" },
-        { "domain-only", [](QXmppConfiguration &c) { c.setJid("montague.example"); }, "x" },
-        { "unicode", [](QXmppConfiguration &c) { c.setUser(QString::fromUtf8("j\xc3\xbcrgen")); c.setDomain(QString::fromUtf8("m\xc3\xbcnchen.example")); c.setResource("tel"); }, "tel" },
-        { "mixed-case", [](QXmppConfiguration &c) { c.setUser("Romeo.M"); c.setDomain("Montague.Example"); }, "QXmpp" },
-        { "unconfigured", [](QXmppConfiguration &) {}, "r" },
-        { "odd", [](QXmppConfiguration &c) { c.setUser("a&b'c"); c.setDomain("d<e>.example"); }, "r" },
+        byJid("romeo", "romeo@montague.example/home"),
+        byJid("domain-only", "montague.example"),
+        byParts("unicode", QString::fromUtf8("j\xc3\xbcrgen"), QString::fromUtf8("m\xc3\xbcnchen.example"), "tel"),
+        byParts("mixed-case", "Romeo.M", "Montague.Example", "QXmpp"),
+        { "unconfigured", [](QXmppConfiguration &) {}, "r", QString(), {} },
+        byParts("odd", "a&b'c", "d<e>.example", "r"),
+        byJid("resource-with-at", "romeo@montague.example/mobile@home.lan"),
     };
 }
 
 // accounts for switching: every field is set, so applying one after another really switches
 static std::vector<OwnCfg> accounts()
 {
-    auto mk = [](const char *name, const char *user, const char *domain, const char *res) {
-        const QString u = QString::fromUtf8(user), d = QString::fromUtf8(domain), r = QString::fromUtf8(res);
-        return OwnCfg { name, [u, d, r](QXmppConfiguration &c) { c.setUser(u); c.setDomain(d); c.setResource(r); }, r };
-    };
     return {
-        mk("A", "romeo", "montague.example", "home"),
-        mk("B", "juliet", "capulet.example", "balcony"),
-        mk("A-case", "Romeo", "montague.example", "home"),          // look-alike of A
-        mk("A-domain", "", "montague.example", "srv"),
-        mk("A-sub", "romeo", "montague.example.evil.example", "x"),   // suffix extension of A
-        mk("unset", "", "", "r"),
-        mk("unicode", "j\xc3\xbcrgen", "m\xc3\xbcnchen.example", "tel"),
+        byParts("A", "romeo", "montague.example", "home"),
+        byParts("B", "juliet", "capulet.example", "balcony"),
+        byParts("A-case", "Romeo", "montague.example", "home"),          // look-alike of A
+        byParts("A-domain", "", "montague.example", "srv"),
+        byParts("A-sub", "romeo", "montague.example.evil.example", "x"),   // suffix extension of A
+        byParts("unset", "", "", "r"),
+        byParts("unicode", QString::fromUtf8("j\xc3\xbcrgen"), QString::fromUtf8("m\xc3\xbcnchen.example"), "tel"),
+        // given as one full JID: the resource may contain '@' and '/' (RFC 7622), the bare part ends at the FIRST slash
+        byJid("A-res-at", "romeo@montague.example/mobile@home.lan"),
+        byJid("A-res-slash-at", "romeo@montague.example/a/b@c.example/d"),
+        byJid("B-res-at-only", "juliet@capulet.example/@"),
+        byJid("anon-like", "a1f3c2@montague.example/tmp@@x/"),
+        byJid("domain-with-resource", "montague.example/srv"),
+        byJid("B-bare", "juliet@capulet.example"),
     };
 }
 
@@ -741,11 +803,109 @@ struct Gen {
 
 static std::unique_ptr<Rig> newRig(bool v2, const OwnCfg &cfg)
 {
-    auto rig = std::make_unique<Rig>(v2, cfg.fn);
+    auto rig = std::make_unique<Rig>(v2, cfg.fn, cfg.expectedOwn);
     corr(std::string("reset ") + (v2 ? "v2 " : "v1 ") + req(rig->own), "ok");
     rig->history.push_back(std::string("reset ") + (v2 ? "v2 " : "v1 ") + req(rig->own));
+    announce(*rig, cfg, "reset");
     stat("clients");
     return rig;
+}
+
+// ---------------------------------------------------------------------------------------------- scripted logins
+// Socket-less stream negotiation: the harness plays the server by emitting the signals XmppSocket emits for data read from
+// the network (started, streamReceived, stanzaReceived). The JID the server binds is chosen by the harness, so the harness
+// KNOWS the user's own bare JID afterwards without asking the client.
+static const char *STREAM_OPEN =
+    "<stream:stream xmlns='jabber:client' xmlns:stream='http://etherx.jabber.org/streams' from='montague.example' id='s1' version='1.0'>";
+
+static QDomElement streamElement()
+{
+    QDomDocument doc;
+    doc.setContent(QString::fromUtf8(STREAM_OPEN) + QStringLiteral("</stream:stream>"), true);
+    return doc.documentElement();
+}
+static void serverSends(Rig &rig, const QString &xml)
+{
+    QDomDocument doc;
+    QString err;
+    if (!doc.setContent(QString::fromUtf8(STREAM_OPEN) + xml + QStringLiteral("</stream:stream>"), true, &err)) harnessBug("login script XML: " + err.toStdString(), xml);
+    auto &sock = rig.client.outgoing()->xmppSocket();
+    for (auto &child : elementKids(doc.documentElement())) {
+        Q_EMIT sock.stanzaReceived(child);
+        QCoreApplication::processEvents();
+    }
+}
+static QString lastIqId(const Rig &rig, const QString &childNs)
+{
+    for (auto it = rig.sentXml.crbegin(); it != rig.sentXml.crend(); ++it) {
+        QDomDocument doc;
+        if (!doc.setContent(*it, true)) continue;
+        auto el = doc.documentElement();
+        if (el.tagName() == "iq" && el.firstChildElement().namespaceURI() == childNs) return el.attribute("id");
+    }
+    return {};
+}
+static QString xmlEscaped(const QString &s) { return s.toHtmlEscaped(); }
+
+// RFC 6120 login: stream, SASL <mechanism>, restart, legacy resource binding; the server binds `boundJid`
+static void loginLegacy(Rig &rig, const QString &mechanism, const QString &boundJid)
+{
+    auto &sock = rig.client.outgoing()->xmppSocket();
+    Q_EMIT sock.started();
+    Q_EMIT sock.streamReceived(streamElement());
+    QCoreApplication::processEvents();
+    serverSends(rig, QStringLiteral("<stream:features><mechanisms xmlns='urn:ietf:params:xml:ns:xmpp-sasl'><mechanism>%1</mechanism></mechanisms></stream:features>").arg(mechanism));
+    serverSends(rig, QStringLiteral("<success xmlns='urn:ietf:params:xml:ns:xmpp-sasl'/>"));
+    Q_EMIT sock.streamReceived(streamElement());
+    serverSends(rig, QStringLiteral("<stream:features><bind xmlns='urn:ietf:params:xml:ns:xmpp-bind'/></stream:features>"));
+    const QString id = lastIqId(rig, QStringLiteral("urn:ietf:params:xml:ns:xmpp-bind"));
+    if (id.isEmpty()) harnessBug("scripted legacy login: the client sent no bind request", rig.sentXml.join("\n"));
+    bool connected = false;
+    auto c = QObject::connect(&rig.client, &QXmppClient::connected, [&] { connected = true; });
+    serverSends(rig, QStringLiteral("<iq type='result' id='%1'><bind xmlns='urn:ietf:params:xml:ns:xmpp-bind'><jid>%2</jid></bind></iq>").arg(xmlEscaped(id), xmlEscaped(boundJid)));
+    QObject::disconnect(c);
+    if (!connected) harnessBug("scripted legacy login: no session after the bind result", rig.sentXml.join("\n"));
+}
+
+// XEP-0388 + XEP-0386 login: SASL 2 PLAIN with inline Bind 2; the server reports `authzid` (a full JID) as authorization identifier
+static void loginSasl2(Rig &rig, const QString &authzid)
+{
+    auto &sock = rig.client.outgoing()->xmppSocket();
+    Q_EMIT sock.started();
+    Q_EMIT sock.streamReceived(streamElement());
+    QCoreApplication::processEvents();
+    serverSends(rig, QStringLiteral("<stream:features><authentication xmlns='urn:xmpp:sasl:2'><mechanism>PLAIN</mechanism>"
+                                    "<inline><bind xmlns='urn:xmpp:bind:0'><inline><feature var='urn:xmpp:carbons:2'/></inline></bind></inline>"
+                                    "</authentication></stream:features>"));
+    bool authenticateSent = false;
+    for (auto &x : rig.sentXml) authenticateSent |= x.contains("<authenticate") && x.contains("urn:xmpp:bind:0");
+    if (!authenticateSent) harnessBug("scripted SASL 2 login: no <authenticate/> with a Bind 2 request", rig.sentXml.join("\n"));
+    bool connected = false;
+    auto c = QObject::connect(&rig.client, &QXmppClient::connected, [&] { connected = true; });
+    serverSends(rig, QStringLiteral("<success xmlns='urn:xmpp:sasl:2'><authorization-identifier>%1</authorization-identifier><bound xmlns='urn:xmpp:bind:0'/></success>").arg(xmlEscaped(authzid)));
+    serverSends(rig, QStringLiteral("<stream:features/>"));
+    QObject::disconnect(c);
+    if (!connected) harnessBug("scripted SASL 2 login: no session after <success/>", rig.sentXml.join("\n"));
+}
+
+struct Login { const char *name; bool sasl2; const char *mechanism; OwnCfg configured; QString boundJid; };
+
+static std::vector<Login> logins()
+{
+    const QString U = QString::fromUtf8("j\xc3\xbcrgen@m\xc3\xbcnchen.example");
+    std::vector<Login> v;
+    for (bool sasl2 : { false, true }) {
+        v.push_back({ "alias", sasl2, "PLAIN", byJid("alias", "r.montague@montague.example"), "romeo@montague.example/orchard" });
+        v.push_back({ "resource-with-at", sasl2, "PLAIN", byJid("plain", "romeo@montague.example"), "romeo@montague.example/mobile@home.lan" });
+        v.push_back({ "resource-with-slash-and-at", sasl2, "PLAIN", byJid("plain", "romeo@montague.example/wish"), "romeo@montague.example/a/b@c.example/d" });
+        v.push_back({ "case-normalised-by-server", sasl2, "PLAIN", byParts("mixed", "Romeo", "Montague.Example", "x"), "romeo@montague.example/x" });
+        v.push_back({ "other-domain", sasl2, "PLAIN", byJid("hosted", "romeo@login.montague.example"), "romeo@montague.example/@" });
+        v.push_back({ "unicode", sasl2, "PLAIN", byJid("unicode", U), U + QString::fromUtf8("/tel\xc3\xa9fon@heim") });
+    }
+    OwnCfg anon { "anonymous", [](QXmppConfiguration &c) { c.setDomain("montague.example"); c.setSaslAuthMechanism("ANONYMOUS"); }, QString(), "montague.example", {} };
+    v.push_back({ "anonymous", false, "ANONYMOUS", anon, "a1f3c2@montague.example/tmp" });
+    v.push_back({ "anonymous-resource-with-at", false, "ANONYMOUS", anon, "a1f3c2@montague.example/tmp@montague.example" });
+    return v;
 }
 
 static void sentinel()
@@ -883,7 +1043,7 @@ int main(int argc, char **argv)
                 auto rig = newRig(v2, cfgs[4]);   // starts with no JID configured
                 for (int d = 0; d < depth; d++) {
                     const Sym &sy = alpha[idx[d]];
-                    if (sy.account >= 0) reconfigure(*rig, acc[sy.account].fn, (d + idx[d]) % 2);
+                    if (sy.account >= 0) reconfigure(*rig, acc[sy.account], (d + idx[d]) % 2);
                     else {
                         Outer o; o.id = "s" + QString::number(d); o.type = "chat"; if (sy.present) o.from = sy.from;
                         o.to = rig->own + "/r"; o.kids = sy.kids;
@@ -909,13 +1069,52 @@ int main(int argc, char **argv)
                 if (rng.below(100) < 12) {
                     g.formerOwns.push_back(rig->own);
                     cur = &acc[rng.below(acc.size())];
-                    reconfigure(*rig, cur->fn, rng.coin());
+                    reconfigure(*rig, *cur, rng.coin());
                     g.own = rig->own; g.res = cur->resource; g.snd = senders(rig->own, cur->resource);
                 } else inject(*rig, g.outer(), int(rng.below(16)));
             }
         }
         stat("switch_random_clients", sclients);
     }
+    // 4. real logins (legacy resource binding; SASL 2 + Bind 2), the server binding a JID that differs from the configured one
+    //    (alias, anonymous, server-normalised case) and/or has '@' and '/' in the resource. From the bind on the user's own bare
+    //    JID is the bare part of the BOUND JID — known to the harness because it scripted the server — and carbons are fed.
+    for (bool v2 : { true, false }) {
+        for (auto &lg : logins()) {
+            auto rig = newRig(v2, lg.configured);
+            auto &cfg = rig->client.configuration();
+            cfg.setPassword("secret");
+            cfg.setDisabledSaslMechanisms({});
+            if (lg.sasl2) { cfg.setResourcePrefix("mobile"); loginSasl2(*rig, lg.boundJid); }
+            else loginLegacy(*rig, QString::fromLatin1(lg.mechanism), lg.boundJid);
+            const QString configuredOwn = rig->own;
+            rig->own = bareIndependently(lg.boundJid);
+            corr("jid " + req(lg.boundJid), "own=" + pct(rig->client.configuration().jidBare()));
+            rig->history.push_back(std::string("login ") + (lg.sasl2 ? "sasl2+bind2 " : "legacy-bind ") + lg.mechanism + " server-bound jid " + req(lg.boundJid));
+            checkOwn(*rig);
+            stat(lg.sasl2 ? "logins_sasl2_bind2" : "logins_legacy_bind");
+
+            const QString res = lg.boundJid.mid(lg.boundJid.indexOf('/') + 1);
+            auto snd = senders(rig->own, res);
+            std::vector<QString> strangers = { configuredOwn, bareIndependently(configuredOwn), "montague.example", res };
+            { const int at = rig->own.indexOf('@'), rat = res.lastIndexOf('@');
+              if (rat >= 0) { strangers.push_back(rig->own.left(at + 1) + res.mid(rat + 1)); strangers.push_back(res.mid(rat + 1)); strangers.push_back(rig->own.left(at) + "@" + bareIndependently(res.mid(rat + 1))); }
+              strangers.push_back("romeo@home.lan"); strangers.push_back("mobile@home.lan"); strangers.push_back(lg.boundJid); }
+            for (auto &x : strangers) snd.push_back(x);
+            auto shp = shapes(rig->own);
+            const size_t nshape = std::min<size_t>(shp.size(), thorough ? shp.size() : 16);
+            for (size_t si = 0; si < snd.size(); si++)
+                for (size_t ki = 0; ki < nshape; ki++) {
+                    Outer o; o.id = "L" + QString::number(ki); o.from = snd[si]; o.to = lg.boundJid; o.kids = shp[ki];
+                    o.type = typeValues()[(si + ki) % typeValues().size()];
+                    inject(*rig, o, int((si + ki) % 16));
+                }
+            Gen g { rng, rig->own, res, snd };
+            g.formerOwns = strangers;
+            for (int i = 0; i < 150; i++) inject(*rig, g.outer(), int(rng.below(16)));
+        }
+    }
+
     stat("stanzas", nStanzas);
     finish();
     return 0;
